@@ -407,14 +407,20 @@ package gabi
 //@   loop 1 modifies elems(disclosed)
 
 //@ pred msgval(x, pk) := ite(bitlen(val(x)) > pk.Params.Lm, os2ip(sha256(i2osp(abs(val(x))))), val(x))
+//@ func (*NonRevocationProofBuilder).CreateProof
+//@   property C04
+//@   inline
+
 //@ func (*DisclosureProofBuilder).CreateProof
 //@   property C04
 //@   safety
 //@   requires d != nil && challenge != nil && wfpk(d.pk) && d.randomizedSignature != nil && d.randomizedSignature.E != nil && d.randomizedSignature.V != nil && d.eCommit != nil && d.vCommit != nil
 //@   requires forall k in 0..len(d.undisclosedAttributes) :: 0 <= d.undisclosedAttributes[k] && d.undisclosedAttributes[k] < len(d.attributes) && d.attributes[d.undisclosedAttributes[k]] != nil && d.attrRandomizers[d.undisclosedAttributes[k]] != nil
 //@   requires forall k in 0..len(d.disclosedAttributes) :: 0 <= d.disclosedAttributes[k] && d.disclosedAttributes[k] < len(d.attributes)
-//@   requires d.nonrevBuilder == nil && d.rpStructures == nil
-//@   ensures kind: result is *ProofD && result.(*ProofD) != nil && result.(*ProofD).C == challenge && result.(*ProofD).A == d.randomizedSignature.A && result.(*ProofD).NonRevocationProof == nil && result.(*ProofD).RangeProofs == nil
+//@   requires d.rpStructures == nil
+//@   requires d.nonrevBuilder != nil ==> d.nonrevBuilder.commit != nil && forall i in 0..5 :: d.nonrevBuilder.commit.secrets[revocation.secretNames[i]] != nil && d.nonrevBuilder.commit.randomizers[revocation.secretNames[i]] != nil
+//@   ensures kind: result is *ProofD && result.(*ProofD) != nil && result.(*ProofD).C == challenge && result.(*ProofD).A == d.randomizedSignature.A && result.(*ProofD).RangeProofs == nil
+//@   ensures nonrev: (d.nonrevBuilder == nil ==> result.(*ProofD).NonRevocationProof == nil) && (d.nonrevBuilder != nil ==> result.(*ProofD).NonRevocationProof != nil && result.(*ProofD).NonRevocationProof.SignedAccumulator == d.nonrevBuilder.commit.sacc && !in(result.(*ProofD).NonRevocationProof.Responses, "alpha"))
 //@   ensures disclosed: forall k in 0..len(d.disclosedAttributes) :: in(result.(*ProofD).ADisclosed, d.disclosedAttributes[k]) && result.(*ProofD).ADisclosed[d.disclosedAttributes[k]] == d.attributes[d.disclosedAttributes[k]]
 //@   ensures onlychosen: forall idx in dom(result.(*ProofD).ADisclosed) :: exists k in 0..len(d.disclosedAttributes) :: d.disclosedAttributes[k] == idx
 //@   ensures responses: forall k in 0..len(d.undisclosedAttributes) :: in(result.(*ProofD).AResponses, d.undisclosedAttributes[k]) && result.(*ProofD).AResponses[d.undisclosedAttributes[k]] != nil && val(result.(*ProofD).AResponses[d.undisclosedAttributes[k]]) == val(d.attrRandomizers[d.undisclosedAttributes[k]]) + prod(val(challenge), msgval(d.attributes[d.undisclosedAttributes[k]], d.pk))
